@@ -14,12 +14,12 @@ from . import common as C
 ID = 'C12'
 LEVEL = 'fault_enumeration'
 LEVEL_TEXT = ('fault enumeration (profile A): every I/O event of a fault-free run is faulted with open/write/close errors '
-              '(thorough; seeded sample in quick) plus seeded HDF5 read errors and interrupts; exploration (profile B): 16 classes '
+              '(thorough, stratified to 400 plans per case when a run has more; seeded sample in quick) plus seeded HDF5 read errors and interrupts; exploration (profile B): 16 classes '
               'of invalid / degenerate input combined with otherwise valid content; in both, a normal return is checked against the '
               'full conjunction of content oracles')
 LEVEL_NOTE = ('trusted: sim/rp66.py, sim/expect.py, sim/schema.py; a fault that did not fire makes the run count as fault-free; '
               'fault-free and fault-injecting profiles are separate cases so that the relaxation under faults hides no ordinary bug')
-TIERS = {'quick': {'cases': 1800, 'wall': 45, 'faults_per_case': 6}, 'thorough': {'cases': 150000, 'wall': 840, 'faults_per_case': 10 ** 6}}
+TIERS = {'quick': {'cases': 1800, 'wall': 45, 'faults_per_case': 6}, 'thorough': {'cases': 150000, 'wall': 840, 'faults_per_case': 400}}
 RULE = ('case = profile A: valid specification, written once per enumerated fault; profile B: specification with one fringe defect; '
         'non-trivial = a fault fired or the fringe input was actually accepted by the builder (so that write() had to decide); '
         'distinct = case digest')
@@ -225,13 +225,16 @@ def check_case(case, ex):
         for p in pk[:4]:
             plans.append([{'kind': 'h5_read', 'at_read': 1 + int(p * 12)}])
         plans.append('h5_truncated')
-    if lines:
-        for p in pk[4:7]:
+    if lines and Pm.get('n_faults', 0) >= 100 and pk[9] < 0.1:
+        # thorough, a tenth of the cases: stratified sweep over the line events of the write (<= 100 interrupt points)
+        k = max(lines // 100, 1)
+        for ln in range(1 + int(pk[10] * k), lines + 1, k):
+            plans.append([{'kind': 'interrupt', 'at_line': ln}])
+    elif lines:
+        for p in pk[4:8]:
             plans.append([{'kind': 'interrupt', 'at_line': 1 + int(p * (lines - 1))}])
     nmax = Pm.get('n_faults', 6)
-    if len(plans) > nmax:
-        idxs = sorted(set(int(pk[i % len(pk)] * len(plans)) % len(plans) for i in range(nmax)))
-        plans = [plans[i] for i in idxs]
+    plans = C.pick_plans(plans, nmax, Pm['pick'])
     for plan in plans:
         w2 = dict(w)
         w2.pop('count_lines', None)
